@@ -25,7 +25,7 @@ def make_curve(n_app=300, n_ret=None, depth=1e-6, z0=3e-6,
                tilt=0., drift=0., seed=0, zoff=1.25e-6, baseline=0.,
                lag=0, spikes=0, path="/synthetic/curve.h5", enum=0,
                with_tip=False, extra_meta=None, cls=None, perturb=None,
-               drop_meta=()):
+               drop_meta=(), turn="linear"):
     """Return a nanite.Indentation with an approach and a retract segment.
 
     The tip position runs from +z0 (far away) down to -depth (indented) and
@@ -39,6 +39,14 @@ def make_curve(n_app=300, n_ret=None, depth=1e-6, z0=3e-6,
     rng = np.random.default_rng(seed)
     tip_a = np.linspace(z0, -depth, n_app)
     tip_r = np.linspace(-depth, z0, n_ret)
+    if turn == "parabolic":
+        # the piezo slows down smoothly towards the turning point: with a
+        # segment flag that is `lag` samples early the flagged retract
+        # segment starts with a reversal of only a few picometres
+        ta = np.linspace(1, 0, n_app)
+        tr = np.linspace(0, 1, n_ret)
+        tip_a = -depth + (z0 + depth) * ta ** 2
+        tip_r = -depth + (z0 + depth) * tr ** 2
     tip = np.concatenate([tip_a, tip_r])
     pp = dict(DEFAULT_PARAMS[model_key])
     if params:
